@@ -1455,11 +1455,14 @@ EXPLANATION = ("Sampled (quick) / whole corpus (thorough).  The correspondence c
                "centres (model: exhaustive matcher over lib/Mono's candidate test on typesGH + order), balance verdict and element counts; and "
                "string-level results (model/C09_Strings.v): every way of calling Standardize (fit x 4 option combinations, standardize_rsmi x 2, "
                "remove_atom_mapping, the filtered fragment lists before sorting, categorize_reactions) with RDKit as oracle tables, the map number "
-               "of every atom after expand_aam, rsmi_balance_check on odd strings, check_equivariant_graph on 0-6 graphs.")
+               "of every atom after expand_aam, rsmi_balance_check on odd strings, check_equivariant_graph on 0-6 graphs, validate_smiles columns, "
+               "parse_input / dict(s)_balance_check records with their key order, remap_graph in both forms with its error cases, "
+               "extract_subgraph / reset_indices, the re-parsed FixAAM output; the whole CanonRSMI instance state after every history step.")
 TRUSTED_BASE = [
     "Coq 8.16.1 kernel + vm_compute (no native_compute); stdlib only",
-    "hand-written models coq/model/C09_Model.v (on the datatypes of C01_Model.v, get_rc of C02_Model.v, canonical orders of C08_Model.v) and "
-    "coq/model/C09_Strings.v tied to canon_rsmi.py / aam_validator.py / balance_check.py / standardize.py by the per-run correspondence",
+    "hand-written models coq/model/C09_Model.v (on the datatypes of C01_Model.v, get_rc of C02_Model.v, canonical orders of C08_Model.v), "
+    "C09_Strings.v, C09_State.v, C09_Helpers.v, C09_Records.v tied to canon_rsmi.py / aam_validator.py / balance_check.py / standardize.py / "
+    "fix_aam.py / normalize_aam.py by the per-run correspondence",
     "RDKit (SMILES parser, sanitiser, canonical SMILES writer, CalcMolFormula) and MolToGraph / GraphToMol: the graphs reach the graph-level model "
     "AFTER them; the string-level model receives their answers as finite oracle tables computed by direct RDKit calls (harness/gen/c09_str.py)",
     "networkx: relabel_nodes, is_isomorphic (VF2; the model is an exhaustive matcher), weisfeiler_lehman_subgraph_hashes (colours are an oracle input)",
@@ -1486,7 +1489,8 @@ TESTED_NOT_PROVED = [
     "rsmi_to_graph / graph_to_smi (RDKit front and back end of the canonicaliser): same unmapped sides checked by the oracle on every run",
     "WL colours are an input of the model (any ranking); nauty model evaluated only for reactant graphs of <= %d atoms, ITS matcher for <= %d atoms "
     "(larger cases: oracle + reaction-centre matcher only)" % (NAUTY_MAX_ATOMS, ITS_MAX_ATOMS),
-    "validate_smiles statistics (accuracy, success_rate), parse_input, dict_balance_check key handling: compared with references / fresh evaluations in the histories, not modelled",
+    "validate_smiles: success_rate and the float accuracy (derived by the harness from the modelled exact count), the tautomer path; "
+    "NormalizeAAM.fit (oracle: reaction centre preserved); list(subgraph.nodes()) of a networkx subgraph-view copy (oracle input of reset_indices_by)",
 ]
 TECHNIQUE = "Coq proof about an executable Gallina model + per-run correspondence (vm_compute) + independent property oracle"
 LEVEL_TEXT = ("Machine-checked proof (Coq) over executable models of CanonRSMI.canonicalise (graph level, after RDKit parsing, before RDKit "
